@@ -8,9 +8,11 @@
    iterations (subst_refines, C11); the two-stack equality within
    2*(size a + size b)+2 (eq_sm_refines, C12).
    Layer 3 (no cycles): FALSE as a global statement (ddSMT's FAQ says no global
-   ranking exists); it is searched, not proved: see the check's cycle search. *)
+   ranking exists); for the 15 modelled rewrites one measure decreases under
+   every rewrite applied at any position (no_cycles_partial, Props/C03Measure.v);
+   for the other mutators cycles are searched, not proved. *)
 From Coq Require Import Wellfounded.
-From DD Require Import Model.SchedHier Props.SchedHierProps Props.C11 Props.C12 Model.SchedDdmin Props.SchedDdminProps.
+From DD Require Import Model.SchedHier Props.SchedHierProps Props.C11 Props.C12 Model.SchedDdmin Props.SchedDdminProps Props.C03Measure.
 
 Theorem c03_no_infinite_run : ltac:(let t := type of no_infinite_run in exact t).
 Proof. exact no_infinite_run. Qed.
@@ -41,3 +43,13 @@ Theorem c03_equality_terminates : ltac:(let t := type of eq_sm_refines in exact 
 Proof. exact eq_sm_refines. Qed.
 Print Assumptions c03_equality_terminates.
 About no_infinite_run. About subst_refines.
+
+(* no chain of the 15 modelled rewrites, applied at any positions, returns to its start; no no-ops; bounded chains *)
+Theorem c03_no_cycles_partial : ltac:(let t := type of c03m_no_cycles_partial in exact t).
+Proof. exact c03m_no_cycles_partial. Qed.
+Print Assumptions c03_no_cycles_partial.
+
+Theorem c03_rewrite_chains_bounded : ltac:(let t := type of c03m_chain_bounded in exact t).
+Proof. exact c03m_chain_bounded. Qed.
+Print Assumptions c03_rewrite_chains_bounded.
+About c03m_no_cycles_partial.
